@@ -7,6 +7,8 @@ from checks.common import Obligation
 ORACLE_OF = {
     'C02': ['canonical-event-sequence', 'no-panic-escapes-the-attempt', 'reference-applicable'],
     'C09': ['world-threaded-through-hooks-and-steps', 'world-created-at-most-once-and-only-when-needed', 'reference-applicable'],
+    'C01': ['failed-events-say-retried-iff-the-attempt-is-retried', 'reference-applicable'],
+    'C05': ['attempt-reported-failed-and-retried-correctly', 'reference-applicable'],
     'C10': ['no-panic-escapes-the-attempt', 'failed-events-carry-the-payload', 'canonical-event-sequence', 'attempt-reported-failed-and-retried-correctly'],
 }
 
@@ -142,6 +144,43 @@ def confirm(chk, o, prop, name):
             created = len(re.findall(r'LOG world_new w\d+', out))
             if created > 1:
                 problems.append('%d Worlds created in one attempt' % created)
+        if name == 'canonical-event-sequence':
+            # the real attempt's events (those of the attempt whose retry counters are the shape's) against the canonical sequence
+            from checks import events as _events
+            ref = attempt.reference(shape, tl, _events.CukeIdx(chk.prog))
+            rtag = ' r=%s' % ('-' if shape.retries is None else '%d/%d' % tuple(shape.retries))
+
+            def native_name(e):
+                if e[1] in ('Started', 'Finished'):
+                    return e[1].lower()
+                if e[1] == 'Hook':
+                    return 'hook:%s:%s' % (e[2], e[3].lower())
+                k = 'bg' if e[1] == 'Background' else 'step'
+                if e[3] == 'Failed':
+                    return '%s[%s]:failed:%s' % (k, e[2], {'NotFound': 'notfound', 'AmbiguousMatch': 'ambiguous', 'Panic': 'panic'}[e[5]])
+                return '%s[%s]:%s' % (k, e[2], e[3].lower())
+            want = [native_name(e) for e in ref['events']]
+            got = [e.split(':scenario[s]:', 1)[1][:-len(rtag)] for e in sc if e.endswith(rtag)]
+            if got != want:
+                problems.append('the real attempt emits %s, canonical sequence %s' % (got, want))
+        if name == 'failed-events-say-retried-iff-the-attempt-is-retried':
+            # the last attempt that ran is final: its failure events must not announce a further retry
+            att = [re.search(r' r=(\S+)$', e).group(1) for e in sc if re.search(r':started r=', e) and ':step[' not in e and ':bg[' not in e and ':hook:' not in e]
+            if att:
+                last = att[-1]
+                for e in sc:
+                    m_ = re.search(r':failed.* r=(\d+)/(\d+)$', e)
+                    if m_ and e.endswith('r=' + last) and int(m_.group(2)) > 0 and ':failed:notfound' not in e:
+                        problems.append('the last attempt that ran (r=%s) reports a failure with %s retries left: writers count it as retried, the run is not failed: %s' % (last, m_.group(2), e))
+        if name == 'attempt-reported-failed-and-retried-correctly':
+            # scripted failures repeat in every attempt: an attempt with a Failed event (step or hook) and budget left
+            # must be followed by the next attempt, so a budget of N gives N+1 attempts; without a failure exactly one
+            budget = 0 if shape.retries is None else shape.retries[0] + shape.retries[1]
+            started = [e for e in sc if re.search(r':started r=', e) and ':step[' not in e and ':bg[' not in e and ':hook:' not in e]
+            failed0 = any(':failed' in e for e in sc)
+            want = budget + 1 if failed0 else 1
+            if len(started) != want:
+                problems.append('%d attempt(s) ran; a scenario whose attempts %s and whose budget is %d has %d' % (len(started), 'fail' if failed0 else 'do not fail', budget, want))
     if problems:
         chk.replay_files.append(path)
         o.replay = path
